@@ -648,6 +648,11 @@ func (h *H) mutate(kind string, dec int, aux []int64, sample []byte, in2 []byte,
 		m, r := h.lenMutation(sample, within, -1)
 		h.run(kind+"/lenfield", dec, aux, m, in2, name+" "+r)
 	}
+	// the same fields at the wrap-around points of 8/16/32/64-bit products and casts (wrap.go)
+	for i := 0; i < (nLen+2)/3; i++ {
+		m, r := h.wrapMutation(sample, within)
+		h.run(kind+"/wrapfield", dec, aux, m, in2, name+" "+r)
+	}
 }
 
 // ---------------------------------------------------------------- samples
@@ -912,6 +917,7 @@ func main() {
 		b := hostile[name]
 		h.run("ParsePolicyData/hostile", dPolicyData, nil, b, nil, name)
 	}
+	h.wrapPolData(q(20, 400), q(8, 120), q(4, 30))
 	for i := 0; i < q(120, 1500); i++ {
 		var b []byte
 		switch h.c.Rng.Intn(3) {
@@ -949,6 +955,8 @@ func main() {
 			h.run("LookupACMSize/lenfield", dLookupACMSize, nil, m, nil, name+"[:64] "+r)
 			m, r = h.bitflip(full[:40], 32)
 			h.run("LookupACMSize/bitflip", dLookupACMSize, nil, m, nil, name+"[:40] "+r)
+			m, r = h.wrapMutation(full[:64], 32)
+			h.run("LookupACMSize/wrapfield", dLookupACMSize, nil, m, nil, name+"[:64] "+r)
 		}
 		// ParseACMInfo on a reduced copy of the sample (header + info tables)
 		small := smallACM(full, 0x600)
@@ -976,6 +984,8 @@ func main() {
 			}
 			h.run("ParseACMInfo/mutated", dACMInfo, nil, m, nil, name+" reduced, "+r)
 		}
+		// every count field of the info tables at the wrap-around points of fixed-width products
+		h.wrapACM(name, full, small, q(60, 1000), q(30, 300), q(4, 60))
 		// ParseACM on the whole file (fiano front end): oracle only
 		h.run("ParseACM/valid", dParseACM, nil, full, nil, name)
 		for _, n := range prefixLens(len(full), q(10, 60), 32, 0x4c0, 0x4f0, 0x570) {
@@ -986,6 +996,10 @@ func main() {
 			h.run("ParseACM/bitflip", dParseACM, nil, m, nil, name+" "+r)
 			m, r = h.lenMutation(full, 0x600, -1)
 			h.run("ParseACM/lenfield", dParseACM, nil, m, nil, name+" "+r)
+			if i%3 == 0 {
+				m, r = h.wrapMutation(full, 0x600)
+				h.run("ParseACM/wrapfield", dParseACM, nil, m, nil, name+" "+r)
+			}
 		}
 		for _, v := range []uint32{0, 1, 0x130, 0x131, 0xFFFF, 0x00400000, 0x10000000, 0x3FFFFFFF, 0xFFFFFFFF} {
 			m := clone(full)
@@ -1365,6 +1379,8 @@ func main() {
 		h.run("CalcImageOffset/bitflip", dIFD, []int64{int64(h.c.Rng.Uint32())}, m, nil, "fake_intel_firmware.fd "+r)
 		m, r = h.lenMutation(fw, 0, -1)
 		h.run("CalcImageOffset/lenfield", dIFD, []int64{0xffff0000}, m, nil, "fake_intel_firmware.fd "+r)
+		m, r = h.wrapMutation(fw, 0x1000)
+		h.run("CalcImageOffset/wrapfield", dIFD, []int64{0xffff0000}, m, nil, "fake_intel_firmware.fd "+r)
 		h.run("CalcImageOffset/random", dIFD, []int64{0}, h.rbytes(h.randomLen(q(4096, 65536))), nil, "random")
 	}
 	// an image that starts with a flash descriptor signature
@@ -1395,5 +1411,7 @@ func main() {
 	c.Finish("model and implementation agree on every call: same outcome class (value/error/panic/out-of-memory), same decoded value (flattened field by field), " +
 		"and model allocation <= observed allocation <= 4 x model + 1 KiB/input byte + 4 MiB; inputs = every valid sample shipped in the repository per decoder, " +
 		"their truncations (every length or a stride plus field boundaries), single bit flips, 16/32-bit little-endian length-field overwrites " +
-		"(0, 1, 0xFFFF, 0xFFFFFFFF, len-1, len, len+1, ...), crafted hostile counts and random strings; non-trivial = non-empty input; distinct = distinct Gallina literal")
+		"(0, 1, 0xFFFF, 0xFFFFFFFF, len-1, len, len+1, ...), 16/32/64-bit fields (every count field of the ACM info tables and of the LCP lists and elements, and random offsets) " +
+		"at the wrap-around points of 8/16/32/64-bit products and casts (ceil(k*2^W/size)+d for entry sizes 1..72, the value below, the last multiple that fits the field, 2^(W-1), 2^W-1, 2^W, 2^W+1), " +
+		"crafted hostile counts and random strings; non-trivial = non-empty input; distinct = distinct Gallina literal")
 }
